@@ -4,7 +4,6 @@ From Coq Require Import List ZArith NArith Bool Lia.
 From YK Require Import Base.Int64 Base.Res Preempt.Snapshot Preempt.Victims Preempt.ReqNode Preempt.Quota Preempt.Spec
   Preempt.TreeLemmas Preempt.VictimsProofs Preempt.History.
 Import ListNotations.
-Set Default Timeout 30.
 
 Lemma find_alloc_map : forall (f : alloc -> alloc) l k, (forall a, a_key (f a) = a_key a) ->
   find_alloc (map f l) k = option_map f (find_alloc l k).
